@@ -334,24 +334,25 @@ Proof.
     intros t _ Hok. destruct (can_move t); [|exact Hok].
     destruct (t_is t) as [i|] eqn:Ei.
     + apply set_is_ok; [exact Hok|]. unfold thread_ok in Hok. rewrite Ei in Hok.
-      apply andb_true_iff in Hok. destruct Hok as [_ Hi]. unfold is_ok in *. simpl.
-      apply andb_true_iff in Hi. apply Hi.
+      apply andb_true_iff in Hok. destruct Hok as [_ Hi].
+      destruct (is_ok_parts _ Hi) as [_ [He Hc]]. apply is_ok_intro; auto.
     + apply set_is_ok; [exact Hok|reflexivity].
   - simpl in Hv. split; [exact Hl|]. unfold threads_ok in *. simpl. apply upd_thread_ok; [|exact Ht].
     intros t _ Hok. destruct (can_move t); [|exact Hok].
     destruct (t_is t) as [i|] eqn:Ei.
     + apply set_is_ok; [exact Hok|]. unfold thread_ok in Hok. rewrite Ei in Hok.
-      apply andb_true_iff in Hok. destruct Hok as [_ Hi]. unfold is_ok in *. simpl.
-      apply andb_true_iff in Hi. destruct Hi as [_ He].
+      apply andb_true_iff in Hok. destruct Hok as [_ Hi].
+      destruct (is_ok_parts _ Hi) as [_ [He Hc]]. apply is_ok_intro; auto.
       destruct (i_err i); simpl in *; [exact He|exact Hv].
-    + apply set_is_ok; [exact Hok|]. unfold is_ok. simpl. exact Hv.
+    + apply set_is_ok; [exact Hok|]. apply is_ok_intro; auto.
   - split; [exact Hl|]. unfold threads_ok in *. simpl. apply upd_thread_ok; [|exact Ht].
     intros t _ Hok. destruct (can_move t); [|exact Hok].
     unfold thread_ok in Hok. apply andb_true_iff in Hok. destruct Hok as [Hs Hi].
     apply thread_ok_stack.
     + simpl. rewrite scope_list_encodable, Hs. reflexivity.
     + destruct (t_is t) as [i|]; [|reflexivity].
-      unfold is_ok in *. destruct (i_cmd i); simpl; exact Hi.
+      destruct (is_ok_parts _ Hi) as [Hn [He Hc]].
+      destruct (i_cmd i); try exact Hi; apply is_ok_intro; auto.
   - split; [exact Hl|]. unfold threads_ok in *. simpl. apply upd_thread_ok; [|exact Ht].
     intros t _ Hok. destruct (can_move t); [|exact Hok].
     destruct (t_stack t) as [|f rest] eqn:Es; [exact Hok|].
@@ -359,7 +360,7 @@ Proof.
     simpl in Hs. apply andb_true_iff in Hs. destruct Hs as [_ Hs].
     apply thread_ok_stack; [exact Hs|].
     destruct (t_is t) as [i|]; [|reflexivity].
-    unfold is_ok in *. simpl. apply andb_true_iff in Hi. destruct Hi as [Hn _]. rewrite Hn. reflexivity.
+    destruct (is_ok_parts _ Hi) as [Hn [_ Hc]]. apply is_ok_intro; auto.
   - split; [exact Hl|]. unfold threads_ok in *. simpl. apply upd_thread_ok; [|exact Ht].
     intros t _ Hok. destruct (t_is t) as [i|] eqn:Ei; [|exact Hok].
     destruct (i_running i); [|exact Hok].
@@ -411,13 +412,23 @@ Proof.
   intros [[j [Hj He]]|Hj]; subst r; [left; exists j; split; [reflexivity|exact He]|right; reflexivity].
 Qed.
 
+Lemma inv_locks_zero s : Inv s -> locks_total s = 0.
+Proof.
+  intros [Hl Ht]. unfold locks_total. rewrite Hl. simpl.
+  unfold threads_ok in Ht. induction (d_threads s) as [|t ts IH]; [reflexivity|].
+  simpl in *. apply andb_true_iff in Ht. destruct Ht as [Hto Hts].
+  rewrite (IH Hts). unfold thread_ok in Hto. apply andb_true_iff in Hto. destruct Hto as [_ Hi].
+  unfold cond_held. destruct (t_is t) as [i|]; [|reflexivity].
+  destruct (is_ok_parts _ Hi) as [_ [_ Hc]]. rewrite Hc. reflexivity.
+Qed.
+
 Lemma inv_total_at s :
   Inv s -> total_at dstate (list token) oracle gval model_handler locks_total json_ok is_status s.
 Proof.
   intros H env line. unfold model_handler.
   destruct (handle_inv s env line H) as [Hi Hg].
   split; [apply good_answers; exact Hg|].
-  split; [destruct Hi as [Hl _]; destruct H as [Hl0 _]; rewrite Hl, Hl0; reflexivity|].
+  split; [cbn [fst]; rewrite (inv_locks_zero _ Hi), (inv_locks_zero _ H); reflexivity|].
   split.
   - intros env' line'. simpl. apply good_answers. apply handle_inv. exact Hi.
   - intros env' line' [w [args [Hl' Hw]]]. subst line'. cbn [snd].
